@@ -120,6 +120,10 @@ def jClassInfo (c : ClassInfo) : Json :=
         ("metas", jList (fun (p : Option Str × XmlMeta) => Json.arr #[jOpt jStr p.1, jMeta p.2]) c.metas),
         ("mro", jList jStr c.mro), ("bases", jList jStr c.bases), ("fields", jList jFieldInfo c.fields)]
 
+/-- element names of a document, full depth -/
+partial def names : Xs.Bind.Tree → Json
+  | .node q _ _ _ c _ => jObj [("q", jStr q), ("c", Json.arr (c.map names).toArray)]
+
 def run (op : String) (a : Json) : Option (Except String Json) :=
   match op with
   | "wsdl.envmeta" => some do
@@ -129,6 +133,27 @@ def run (op : String) (a : Json) : Option (Except String Json) :=
       pure <| match envelopeClasses types pns env with
         | some cs => ok (jList jClassInfo cs)
         | none => err "unsupported"
+  | "wsdl.reqshape" => some do
+      let env ← dCls (field a "env")
+      let types ← (← getArr a "types").mapM dTypeInfo
+      let pns ← (← getArr a "pns").mapM dOptStr
+      let pctx ← OpsBind.dCtx (jObj [("classes", field a "payload"), ("xsi_index", Json.arr #[]), ("datatypes", field a "datatypes")])
+      let v ← OpsBind.dVal (field a "value")
+      match envelopeCtx types pns env pctx.classes pctx.datatypes with
+      | none => pure (err "unsupported")
+      | some Γ =>
+        let hyp := Xs.Bind.F1.ctxF1 Γ && decide ((Γ.classes.map (·.id)).Nodup) &&
+          Xs.Bind.F1.valF1 OpsBind.benv Γ env.qname v
+        match Xs.Bind.generate OpsBind.benv Γ {} v with
+        | .error e => pure (jObj [("err", "generate"), ("detail", OpsBind.jErr e), ("f1", jBool hyp)])
+        | .ok evs =>
+          match Xs.Bind.eventsTree (Xs.Bind.F1.isDatatype Γ) evs with
+          | .error e => pure (jObj [("err", "write"), ("detail", OpsBind.jErr e), ("f1", jBool hyp)])
+          | .ok t =>
+            let back := match Xs.Bind.parseRoot OpsBind.benv Γ {} env.qname t with
+              | .ok (_, w) => w == 0
+              | .error _ => false
+            pure (ok (jObj [("f1", jBool hyp), ("parsed_back", jBool back), ("shape", names t)]))
   | _ => none
 
 end OpsWsdlBind
